@@ -2,6 +2,7 @@ package keeper
 
 import (
 	saodid "github.com/SaoNetwork/sao-did"
+	saodidparser "github.com/SaoNetwork/sao-did/parser"
 	sid "github.com/SaoNetwork/sao-did/sid"
 	saodidtypes "github.com/SaoNetwork/sao-did/types"
 	saodidutil "github.com/SaoNetwork/sao-did/util"
@@ -22,6 +23,23 @@ func (k Keeper) verifySignature(ctx sdk.Context, owner string, proposal Proposal
 	}
 
 	var querySidDocument = func(versionId string) (*sid.SidDocument, error) {
+		// the document must be a version of the DID being verified, not just any
+		// key document stored on chain (the kid's versionId is chosen by the signer)
+		if ownerDid, err := saodidparser.Parse(owner); err == nil && ownerDid.Method == "sid" {
+			versions, found := k.did.GetSidDocumentVersion(ctx, ownerDid.ID)
+			belongs := false
+			if found {
+				for _, v := range versions.VersionList {
+					if v == versionId {
+						belongs = true
+						break
+					}
+				}
+			}
+			if !belongs {
+				return nil, nil
+			}
+		}
 		doc, found := k.did.GetSidDocument(ctx, versionId)
 		if found {
 			var keys = make([]*sid.PubKey, 0)
